@@ -182,6 +182,10 @@ def freshTxids : List Txid → List Txid → Option (List Txid)
   | seen, [] => some seen
   | seen, t :: rest => if seen.contains t then none else freshTxids (t :: seen) rest
 
+/-- Block-size bound: transaction indices inside a block are `u32` (`u32::try_from(i).unwrap()` in
+`index_block`, the `tx` field of a `RuneId`); a 4 MB block holds far fewer than `2^32` transactions. -/
+def maxBlockTxs : Nat := 4294967296
+
 /-- one block on top of `st` -/
 def checkBlock (st : VState) (blk : Block) : Option VState :=
   match blk.txs with
@@ -189,6 +193,7 @@ def checkBlock (st : VState) (blk : Block) : Option VState :=
   | cb :: rest =>
     -- heights are consecutive from 0
     if blk.height != st.height then none
+    else if !(decide (blk.txs.length ≤ maxBlockTxs)) then none
     else if !(coinbaseShape cb && txWellFormed cb) then none
     else
     match freshTxids st.txids (blk.txs.map (·.txid)) with
